@@ -255,10 +255,10 @@ impl<'a, T: Real + Clone + Primitive> Dup for MatV<'a, T> {
         // (the column major reading of the view is the underlying tensor in its own order)
         let (rows, cols) = (self.rows(), self.columns());
         let data: Vec<(T, Index)> = self.view().column_major_iter().collect();
-        let base = Tensor::from([("c", cols), ("r", rows)], data);
+        let base = Tensor::from([("hc", cols), ("hr", rows)], data);
         RecordMatrix::from_existing(
             self.history(),
-            MatrixView::from(MatrixRefTensor::from(TensorAccess::from(base, ["r", "c"]))),
+            MatrixView::from(MatrixRefTensor::from(TensorAccess::from(base, ["hr", "hc"]))),
         )
     }
 }
